@@ -42,6 +42,9 @@ impl Axecutor {
         calculate_rm_imm![u8f; self; i; |d: u8, s: u8| {
             assert_ne!(s, 1, "SHL r/m8, imm8 with immediate 1 should be handled by opcode SHL r/m8, 1");
 
+            // Only the low bits of the count are used by the CPU
+            let s = s & 0x1f;
+
             if s == 0 {
                 return (d, FLAGS_UNAFFECTED);
             }
